@@ -173,6 +173,41 @@ def probe_c01(ctx, pf):
                 ctx.violation(f"c01:{cname}:{what}",
                               f"{cname}: {what}: interior face fluxes do not cancel (volume-weighted sum {tot:.6g}, scale {scale:.3g})",
                               lab(cname, fs, D=Da, u=ua, phi_with_ghosts=phi._value, what=what))
+    # TVD correction: its stencil reaches two cells upstream, so a field must vanish within three cells of every boundary; the random
+    # small cases above never have that many cells.  Dedicated block: 10-14 cells along every axis, a bumpy profile in the inner
+    # cells, random velocities of mixed sign on every face (round 6: a face factor lost for one velocity sign only).
+    rng = random.Random(f"c01tvd-{ctx.seed}")
+    names = ["SUPERBEE", "Koren", "VanLeer", "MinMod", "ospre", "CHARM"]
+    for cname in gen.CLASSES:
+        d = gen.DIM[cname]
+        for rep in range(2 if ctx.tier == "quick" else 8):
+            ns = [14] if d == 1 else ([12] * d if d == 2 else [10] * d)
+            fs = [gen.faces(rng, gen.AXKIND[cname][a], ns[a]) for a in range(d)]
+            mesh = gen.build_mesh(pf, cname, fs)
+            V = volumes(pf, mesh, cname)
+            shape = full_shape(mesh)
+            # smooth bump (monotone stretches, so that the limiters are active) times a random amplitude, zero within 3 cells of the boundary
+            ph = np.ones(shape)
+            for a in range(d):
+                k = np.arange(shape[a], dtype=float)
+                prof = np.where((k >= 3) & (k <= shape[a] - 4), np.sin(np.pi * (k - 2.5) / (shape[a] - 6.0)) ** 2 + 0.125 * ((k * 5) % 3), 0.0)
+                prof[:3] = 0.0; prof[-3:] = 0.0
+                ph = ph * prof.reshape([-1 if b == a else 1 for b in range(d)])
+            ph = ph * rng.choice([1.0, -2.0, 0.5])
+            phi = pf.CellVariable(mesh, ph)
+            ua = gen.face_arrays(rng, mesh, p0=0.05)
+            u = pf.FaceVariable(mesh, *ua)
+            nm = names[rep % len(names)]
+            with np.errstate(all="ignore"):
+                t = pf.convectionTVDupwindRHSTerm(u, phi, pf.fluxLimiter(nm))
+            n += 1
+            tot = float(np.sum(V * interior_of(mesh, t)))
+            scale = float(np.sum(np.abs(V * interior_of(mesh, t)))) + 1e-300
+            if not np.isfinite(tot) or abs(tot) > 1e-9 * scale + 1e-12:
+                ctx.violation(f"c01:{cname}:convectionTVDupwindRHSTerm",
+                              f"{cname}: convectionTVDupwindRHSTerm ('{nm}'): interior face fluxes do not cancel for a field supported away from the boundary "
+                              f"(volume-weighted sum {tot:.6g}, scale {scale:.3g})",
+                              lab(cname, fs, u=ua, phi_with_ghosts=ph, what="convectionTVDupwindRHSTerm", limiter=nm))
     return n
 
 
